@@ -197,9 +197,9 @@ func genC13(rt *rapid.T) c13Case {
 type c13State struct {
 	c     *c13Case
 	g     *vgRepo
-	cur   []c13Tree            // committed head tree per branch
-	hist  [][]c13Tree          // all committed trees per branch, oldest first
-	heads []plumbing.Hash      // head commit per branch
+	cur   []c13Tree       // committed head tree per branch
+	hist  [][]c13Tree     // all committed trees per branch, oldest first
+	heads []plumbing.Hash // head commit per branch
 	blobs map[string]plumbing.Hash
 }
 
